@@ -1,0 +1,39 @@
+//! Verification hook (feature `verif` only): per-step trace of the swap loop.
+use std::cell::RefCell;
+
+#[derive(Clone, Debug, PartialEq)]
+pub struct StepTrace {
+    pub tick_before: i32,
+    pub sqrt_price_before: u128,
+    pub sqrt_price_target: u128,
+    pub next_init_tick_index: i32,
+    pub liquidity: u128,
+    pub fee_rate: u32,
+    pub amount_remaining_before: u64,
+    pub amount_in: u64,
+    pub amount_out: u64,
+    pub fee_amount: u64,
+    pub sqrt_price_after: u128,
+    pub skipped: bool,
+    pub crossed_initialized_tick: Option<i32>,
+}
+
+thread_local! {
+    static STEPS: RefCell<Vec<StepTrace>> = const { RefCell::new(Vec::new()) };
+}
+
+pub fn record_step(step: StepTrace) {
+    STEPS.with(|s| s.borrow_mut().push(step));
+}
+
+pub fn record_cross(tick_index: i32) {
+    STEPS.with(|s| {
+        if let Some(last) = s.borrow_mut().last_mut() {
+            last.crossed_initialized_tick = Some(tick_index);
+        }
+    });
+}
+
+pub fn take() -> Vec<StepTrace> {
+    STEPS.with(|s| std::mem::take(&mut *s.borrow_mut()))
+}
